@@ -45,8 +45,8 @@ func init() {
 	register(&Rule{
 		Name:  "INSERT-TRIPLE",
 		IR:    "cfg",
-		Props: []string{"C16", "C37", "C03", "C12"},
-		Floor: 2, // MutableOverlayWorld.AddTag, MutableOverlayWorld.RemoveTag (base-only branches)
+		Props: []string{"C16", "C37", "C03", "C12", "C15"}, // C15: a copy missing from the reverse references is a referrer the reference queries no longer return
+		Floor: 2,                                           // MutableOverlayWorld.AddTag, MutableOverlayWorld.RemoveTag (base-only branches)
 		Doc: "in the methods of every ingest.MutableWorld implementation (AddFeature's Update path apart), a feature value inserted into the world's feature map is, on every path, also added to the " +
 			"world's reverse references and to its search index with the full token set TokensForFeature(<that feature>)",
 		Run: runInsertTriple,
